@@ -1,8 +1,8 @@
 (* C11 source tie - the lemmas the property theorems (the c11_source theorems) are closed with, and the compositions with the model's
    theorems: statements purely about the interpreted source. *)
-From Coq Require Import ZArith QArith List String Bool.
+From Coq Require Import ZArith QArith List String Bool Lia.
 From PV Require Import C11.Model C11.Spec MiniPy.Syntax MiniPy.Interp Gen.C11Src C11.SrcRun.
-From PV Require C11.ProofsCtm C11.TieCtmRead C11.TieCtmWrite C11.TieTokBack.
+From PV Require C11.ProofsCtm C11.ProofsTok C11.TieCtmRead C11.TieCtmWrite C11.TieTokBack C11.TieTokTry C11.TieTok.
 Import ListNotations.
 Local Open Scope string_scope.
 
@@ -31,4 +31,58 @@ Proof.
   pose proof (write_ctm_tie (with_times ts) m) as Tw. rewrite Hw in Tw. destruct Tw as [stw [Hrun Hfile]].
   pose proof (read_ctm_tie segs wc2utt) as Tr. rewrite Hr in Tr. destruct Tr as [str Hrd].
   exists stw, (map enc_seg_line segs). split; [exact Hrun|]. split; [exact Hfile|]. exists str. exact Hrd.
+Qed.
+
+(* transcript_to_token = Model.transcript_to_token (rows of the returned tensor; TypeError when an id is a str) *)
+Definition to_token_tie := C11.TieTok.to_token_tie.
+
+Lemma fs_ok_pos d : (0 < d)%Q -> C11.TieTokTry.fs_ok (Some d).
+Proof.
+  intros H. unfold C11.TieTokTry.fs_ok. destruct (Qeq_bool d 0) eqn:E; [|reflexivity].
+  apply Qeq_bool_iff in E. rewrite E in H. exfalso. exact (Qlt_irrefl 0 H).
+Qed.
+
+Lemma fs_ok_back fs : C11.TieTokTry.fs_ok fs -> C11.TieTokBack.fs_ok fs.
+Proof. exact (fun H => H). Qed.
+
+Lemma enc_rows_ref rows : C11.TieTok.enc_rows false rows = enc_ref 3 rows.
+Proof.
+  unfold C11.TieTok.enc_rows, C11.TieTok.tens, enc_ref, enc_lt. cbn [repeat]. rewrite app_nil_r, map_map.
+  reflexivity.
+Qed.
+
+Lemma norm3 rows : map (C11.TieTokBack.norm_row 3) rows = rows.
+Proof. induction rows as [|r rows IH]; [reflexivity|]. cbn [map]. rewrite IH. reflexivity. Qed.
+
+Lemma Forall2_comp {A B C} (R1 : A -> B -> Prop) (R2 : B -> C -> Prop) l1 : forall l2 l3,
+  Forall2 R1 l1 l2 -> Forall2 R2 l2 l3 -> Forall2 (fun a c => exists b, R1 a b /\ R2 b c) l1 l3.
+Proof.
+  induction l1 as [|a l1 IH]; intros l2 l3 H1 H2; inversion H1; subst; inversion H2; subst; constructor.
+  - eexists; split; eassumption.
+  - eapply IH; eassumption.
+Qed.
+
+(* transcript -> token tensor -> transcript, both interpreted from the source text, with a vocabulary (token2id injective,
+   id2token its inverse) and a frame shift d > 0: the interpreted transcript_to_token returns a (R, 3) tensor, and the
+   interpreted token_to_transcript of that tensor returns, item by item, the same tokens with times within one frame shift
+   (C11.Spec.item_close) - composition of the two ties with c11_tokens_roundtrip *)
+Theorem source_tokens_roundtrip t2i d unk tr :
+  (0 < d)%Q -> NoDup (map snd t2i) ->
+  Forall (fun a => (exists i, assoc tk_eqb (item_tok a) t2i = Some i) /\ item_times_ok a) tr ->
+  exists rows stt,
+    run_to_token (VList (map enc_item tr)) (enc_t2i (Some t2i)) (enc_fs (Some d)) (enc_unk unk) false
+      = Ok (enc_ref 3 rows) stt /\
+    exists ws stb,
+      run_to_transcript (enc_ref 3 rows) (enc_i2t (Some (swap_pairs t2i))) (enc_fs (Some d)) = Ok (VList ws) stb /\
+      Forall2 (fun a v => exists b, item_close d a b /\ C11.TieTokBack.item_rel b v) tr ws.
+Proof.
+  intros Hd Hnd Hall.
+  destruct (C11.ProofsTok.tokens_roundtrip_vocab t2i d unk tr Hd Hnd Hall) as [rows [Hto Hclose]].
+  pose proof (to_token_tie tr (Some t2i) (Some d) unk false (fs_ok_pos d Hd)) as Tt. rewrite Hto in Tt.
+  destruct Tt as [stt Hrun]. rewrite enc_rows_ref in Hrun.
+  destruct (to_transcript_tie 3 rows (Some (swap_pairs t2i)) (Some d) (fs_ok_back _ (fs_ok_pos d Hd))
+              (or_intror (or_intror eq_refl))) as (ws & stb & Hback & Hrel).
+  rewrite norm3 in Hrel.
+  exists rows, stt. split; [exact Hrun|]. exists ws, stb. split; [exact Hback|].
+  exact (Forall2_comp _ _ _ _ _ Hclose Hrel).
 Qed.
